@@ -237,6 +237,86 @@ def ob_block_files_intruded(w, P):
     return x.result()
 
 
+def ob_completed_then_kill(w, P):
+    """C07, durability of what has completed: a transaction block is left by an exception (ordinary or BaseException such as
+    GeneratorExit / KeyboardInterrupt), the process carries on and completes ordinary writes -- each returns normally --
+    and is then killed.  Every write that completed is there for the next process, in full; the aborted block is not."""
+    import os
+    x = Ctx(w, P, cull_limit=0, kinds=('int',), tags=False, min_file_size=0)
+    c = x.c
+    for rv in x.s.rowvars:
+        assume(rv['expire_null'].z)
+    k0, kc0, rc0 = x.key('key0')
+    k1, kc1, rc1 = x.key('key1')
+    k2, kc2, rc2 = x.key('key2')
+    assume(sx.zB(And(NeR(kc0.num, kc1.num), NeR(kc0.num, kc2.num), NeR(kc1.num, kc2.num))))
+    v1 = x.s.v_int('val1', -2 ** 30, 2 ** 30)
+    exc = {'base': BoomBase, 'exc': Boom, 'none': None}[P.get('exc', 'base')]
+    how = P.get('how', 'block')
+
+    def life():
+        if exc is not None:
+            try:
+                if how == 'generator':
+                    def gen():
+                        with c.transact():
+                            yield c.get(k0, default=None)
+                    g = gen()
+                    next(g)
+                    g.close()  # GeneratorExit is raised inside the block
+                else:
+                    with c.transact():
+                        c.set(k0, 5)
+                        raise exc()
+            except (Boom, BoomBase):
+                pass
+        r1 = c.set(k1, v1)
+        r2 = c.set(k2, b'file-value')
+        return r1, r2
+    x.begin()
+    if w.is_real:
+        rd, wr = os.pipe()
+        pid = os.fork()
+        if pid == 0:
+            try:
+                w.stop_events()
+                w.pid += 1
+                c._con
+                try:
+                    r = life()
+                    os.write(wr, b'1' if r == (True, True) else b'0')
+                except BaseException:
+                    os.write(wr, b'E')
+                import signal
+                os.kill(os.getpid(), signal.SIGKILL)
+            finally:
+                os._exit(0)
+        os.close(wr)
+        os.waitpid(pid, 0)
+        done = os.read(rd, 1)
+        os.close(rd)
+        completed = done == b'1'
+    else:
+        r = life()
+        completed = r == (True, True)
+        w.recover()  # the process dies: whatever it had not committed is gone, its locks are released
+    x.end()
+    flag('killed_after_completion')
+    x.add('C07', 'the writes after the aborted block completed normally', completed)
+    h = w.clone_handle(c)
+    T1 = x.s.snapshot()
+    it1, it2, it0 = T1.lookup(kc1, rc1), T1.lookup(kc2, rc2), T1.lookup(kc0, rc0)
+    x.add('C07,C06', 'every write that completed before the kill is fully present for the next process',
+          And(it1.present, EqI(it1.c['value'].cls, INT), EqR(it1.c['value'].num, zv(v1)), it2.present, EqR(it2.c['mode'].num, 2)))
+    old0 = x.T0.lookup(kc0, rc0)
+    if exc is not None and how == 'block':
+        x.add('C07,C06', 'the write of the aborted block is not', And(sx.EqB(it0.present, old0.present) if sx.isz(old0.present) or sx.isz(it0.present) else it0.present == old0.present, Implies(old0.present, same_cols(it0, old0, CACHE_COLS))))
+    got = h.get(k2, default=None)
+    x.add('C07,C01', 'and its file-backed value reads back', (got == b'file-value') if isinstance(got, bytes) else x.value_matches(got, it2))
+    x.add('C07,C08', 'counters match and every row has its file', And(state.inv_table(T1), x.s.fs_inv(T1, allow_orphans=True)))
+    return x.result()
+
+
 # ------------------------------------------------------------------ FanoutCache.transact: one block over every shard
 
 FPOOL = [0, 1, 2, 3]
@@ -386,6 +466,8 @@ def jobs(tier):
             add('ob_block', 'C07,C06', weight=N * 30, must=['crashed'], N=N, ops=ops, crash=True, no_cull=True)
         for who in ('handle', 'thread'):
             add('ob_block_isolation', 'C06,C05', weight=N * 2, must=['intruded_inside'], N=N, who=who)
+    for exc, how in (('base', 'block'), ('base', 'generator'), ('exc', 'block'), ('none', 'block')):
+        add('ob_completed_then_kill', 'C07,C06', weight=6, must=['killed_after_completion'], N=1, exc=exc, how=how)
     for who in ('handle', 'thread'):
         add('ob_block_files_intruded', 'C06,C14,C08', weight=8, must=['refused_inside', 'block_raised', 'block_committed'], N=1, who=who)
     add('ob_block_fanout', 'C06,C08', weight=8, must=['block_raised', 'block_committed'], nops=2)
